@@ -114,6 +114,24 @@ Section P.
   Theorem inv_reach l s : reach (step_nw shadow) (init l) s -> inv shadow s.
   Proof. induction 1 as [|s s' _ IH Hs]; [apply inv_init|eapply inv_step_nw; eauto]. Qed.
 
+  (* the same invariant with forced periodic snapshots at any idle point *)
+  Lemma inv_step_nw_f s s' : inv shadow s -> step_nw_f shadow s s' -> inv shadow s'.
+  Proof.
+    intros I H. inversion H as [s0 s0' Hnw|s0 Hp]; subst; [eapply inv_step_nw; eauto|].
+    destruct I as (I1 & I2 & I3 & I4 & _).
+    unfold inv; cbn [last synced cap pub apps at_]. repeat split; auto.
+  Qed.
+  Theorem inv_reach_f l s : reach (step_nw_f shadow) (init l) s -> inv shadow s.
+  Proof. induction 1 as [|s s' _ IH Hs]; [apply inv_init|eapply inv_step_nw_f; eauto]. Qed.
+
+  Theorem published_at_idle_f l s :
+    reach (step_nw_f shadow) (init l) s -> at_ s = Top -> ~ (synced s < last s) ->
+    forall a, In a (apps s) -> a <= pub s.
+  Proof.
+    intros Hr Hp Hn a Ha. destruct (inv_reach_f l s Hr) as (I1 & I2 & I3 & _).
+    apply I3; auto. specialize (I2 a Ha). lia.
+  Qed.
+
   (* C09 at idle: when the loop is at Top with nothing to send, every application commit of this run is in the
      newest successful upload *)
   Theorem published_at_idle l s :
@@ -133,6 +151,17 @@ Section P.
     forall a, In a (apps s) -> a <= (if lc then last s else cap s).
   Proof.
     intros Hs Hr Hp T lc a Ha. destruct (inv_reach l s Hr) as (I1 & I2 & I3 & I4 & _).
+    destruct lc eqn:E; [apply I2, Ha|].
+    apply (I4 Hs a Ha). unfold lc in E. specialize (I2 a Ha). lia.
+  Qed.
+
+  Theorem captured_before_projection_f l s :
+    shadow = true -> reach (step_nw_f shadow) (init l) s -> at_ s = Top ->
+    let T := last s + 1 in
+    let lc := synced s <? T - 1 in
+    forall a, In a (apps s) -> a <= (if lc then last s else cap s).
+  Proof.
+    intros Hs Hr Hp T lc a Ha. destruct (inv_reach_f l s Hr) as (I1 & I2 & I3 & I4 & _).
     destruct lc eqn:E; [apply I2, Ha|].
     apply (I4 Hs a Ha). unfold lc in E. specialize (I2 a Ha). lia.
   Qed.
